@@ -81,9 +81,10 @@ def run_results(ctx, want: str):
     plans = PLANS if want == "C01" else PLANS[:2]
     if ctx.thorough:
         plans = plans + [dict(p, seed=p["seed"] + 10, k=p["k"] + 1) for p in plans]
-    streams = [((), n_main)]
+    # conditional fragments are ordinary scenarios since the F3 repair (same seeds as the former stream)
+    streams = [((), n_main), (("cond_fragment",), n_exotic)]
     if want == "C01":
-        streams += [(("cond_fragment",), n_exotic), (("foreign_cond",), n_exotic)]
+        streams += [(("foreign_cond",), n_exotic)]
     from .k1_results import corpus_scenarios
     scs = corpus_scenarios()
     for si, (feats, n) in enumerate(streams):
@@ -194,8 +195,6 @@ def finding_class(g, mp, opname, path):
         return "F30-subtype-spread-inside-abstract-fragment"
     if "corpus" in g.sc.features:
         return None
-    if "cond_fragment" in g.sc.features:
-        return "F3-conditional-fragment"
     if "foreign_cond" in g.sc.features:
         return "F4-unrecognised-type-condition"
     return None
